@@ -12,6 +12,7 @@
 import Scico.Proofs.LinSolveADMM
 import Scico.Proofs.LinSolveADMM2
 import Scico.Proofs.LinSolveADMM3
+import Scico.Proofs.LinSolveADMM4
 import Mathlib.Tactic.NormNum
 
 namespace Scico.Props.C10
@@ -157,6 +158,65 @@ theorem C10_g0_scaling_exact (omega : S) (t1 : Term S M U) (rest : List (Term S 
   g0_exact omega t1 rest x hadd hsys
 
 end Assembly
+
+section StaleScale
+variable {S M U Y' : Type} [Field S] [AddCommGroup M] [Module S M] [AddCommGroup U]
+
+/-- **`f.set_scale(s1)` after the ADMM object was built** (recorded finding `stale-scale-after-init`): the solvers that precompute
+    their left-hand side in `internal_init` (Matrix, CircularConvolve) then work with the operator of the *old* scale and the
+    right-hand side of the *new* one (`staleScaleSystem`) … -/
+theorem C10_stale_scale_system (f : SqL2 S M Y') (s1 : S) (terms : List (Term S M U)) (hne : terms ≠ []) :
+    ∃ lhs rhs, staleScaleSystem 0 f s1 terms = some (lhs, rhs) ∧
+      (∀ x, lhs x = lhsSpec (some f) terms x) ∧ rhs = rhsSpec (some (f.withScale s1)) terms :=
+  staleScale_spec f s1 terms hne
+
+/-- … and a solution of that system satisfies the documented normal equations of the current loss iff
+    `2 (s1 − s0) · Aᴴ W A x = 0` (`_partial`: it does when the scale was not changed, or `AᴴWA x = 0`). -/
+theorem C10_stale_scale_partial (f : SqL2 S M Y') (s1 : S) (terms : List (Term S M U)) (x : M)
+    (hsys : lhsSpec (some f) terms x = rhsSpec (some (f.withScale s1)) terms) :
+    lhsSpec (some (f.withScale s1)) terms x = rhsSpec (some (f.withScale s1)) terms ↔
+      (2 * (s1 - f.scale)) • f.A.adj (f.W (f.A.eval x)) = 0 :=
+  staleScale_exact f s1 terms x hsys
+
+end StaleScale
+
+section StaleWitness
+/-- the statement one would like (NOT claimed): whatever the scale was when the ADMM object was built, the solution of the system the
+    precomputing solvers work with satisfies the normal equations of the loss as it is now -/
+def C10_stale_scale_stmt : Prop :=
+  ∀ (f : SqL2 ℚ ℚ ℚ) (s1 : ℚ) (terms : List (Term ℚ ℚ ℚ)) (x : ℚ), terms ≠ [] →
+    lhsSpec (some f) terms x = rhsSpec (some (f.withScale s1)) terms →
+    lhsSpec (some (f.withScale s1)) terms x = rhsSpec (some (f.withScale s1)) terms
+
+/-- **negation witness**: scalars, `A = W = C = 1`, `y = 1`, `ρ = 1`, `z − u = 0`, scale `½` at construction then `set_scale(2)`:
+    the stale system is `(1 + 1) x = 4`, `x = 2`; the x-step minimiser solves `(4 + 1) x = 4`, `x = 4/5`. -/
+theorem C10_stale_scale_counterexample : ¬ C10_stale_scale_stmt := by
+  intro h
+  let I : LinOp ℚ ℚ := ⟨id, id⟩
+  have := h ⟨1 / 2, I, id, 1⟩ 2 [⟨1, I, 0, 0⟩] 2 (by simp) (by simp [lhsSpec, rhsSpec, SqL2.withScale, I]; norm_num)
+  simp [lhsSpec, rhsSpec, SqL2.withScale, I] at this
+  norm_num at this
+
+end StaleWitness
+
+section G0Docstring
+variable {𝕜 V Y : Type} [RCLike 𝕜] [NormedAddCommGroup V] [InnerProductSpace 𝕜 V]
+  [NormedAddCommGroup Y] [InnerProductSpace 𝕜 Y]
+  {ι : Type} [Fintype ι] {U : ι → Type} [∀ i, NormedAddCommGroup (U i)] [∀ i, InnerProductSpace 𝕜 (U i)]
+
+/-- **The other side of `g0-scale`: G0 solves the step written in its own docstring.**  For every `ω ≥ 0` the system the solver
+    assembles (`C10_g0_system`) characterises the minimisers of `ρ₁ ω ‖C₁ x − v₁‖² + Σ_{i≥2} ρ_i/2 ‖C_i x − v_i‖²` — the objective its
+    docstring calls "the ADMM x-step".  The x-step of the ADMM algorithm (`C10_normal_eq_iff_argmin`) has `ρ₁/2` in place of `ρ₁ ω`
+    (the scale of `g₁` belongs to the prox of `g₁`, not to the x-step); the two coincide iff `2ω = 1` (`C10_g0_scaling_exact`). -/
+theorem C10_g0_solves_docstring (C1 : V →ₗ[𝕜] Y) (C1H : Y →ₗ[𝕜] V) (hC1 : ∀ x y, inner 𝕜 (C1 x) y = inner 𝕜 x (C1H y))
+    (C : ∀ i, V →ₗ[𝕜] U i) (CH : ∀ i, U i →ₗ[𝕜] V) (hC : ∀ i x y, inner 𝕜 (C i x) y = inner 𝕜 x (CH i y))
+    (ω ρ1 : ℝ) (hω : 0 ≤ ω) (hρ1 : 0 ≤ ρ1) (ρ : ι → ℝ) (hρ : ∀ i, 0 ≤ ρ i) (v1 : Y) (v : ∀ i, U i) (x : V) :
+    (((2 * (ω * ρ1) : ℝ) : 𝕜) • C1H (C1 x) + ∑ i, ((ρ i : ℝ) : 𝕜) • CH i (C i x)
+        = ((2 * (ω * ρ1) : ℝ) : 𝕜) • C1H v1 + ∑ i, ((ρ i : ℝ) : 𝕜) • CH i (v i))
+      ↔ ∀ x', g0DocObj C1 C ω ρ1 ρ v1 v x ≤ g0DocObj C1 C ω ρ1 ρ v1 v x' :=
+  g0_solves_docstring C1 C1H hC1 C CH hC ω ρ1 hω hρ1 ρ hρ v1 v x
+
+end G0Docstring
 
 section G0Witness
 /-- the full statement one would like (NOT claimed): G0's system is the documented one for every scale -/
